@@ -37,6 +37,7 @@ type yaccRule struct {
 }
 
 type yaccAction struct {
+	Default bool // no action in the grammar: the default $$ = $1
 	N    int
 	K    int
 	Body string // generated case body
@@ -317,6 +318,23 @@ func extractYacc(dir, pkg, goFile, yFile string) *yaccInfo {
 		b.WriteString(a.Body)
 		b.WriteString("\treturn yyVAL\n}\n")
 	}
+	// productions without an action: goyacc's default action $$ = $1
+	have := map[int]bool{}
+	for _, a := range y.Actions {
+		have[a.N] = true
+	}
+	for _, r := range y.Rules {
+		if have[r.N] || len(r.Rhs) == 0 {
+			continue
+		}
+		k := len(r.Rhs)
+		if r.N < len(r2) && r2[r.N] != k {
+			y.Errors = append(y.Errors, fmt.Sprintf("rule %d (%s): yyR2 = %d but the rule has %d symbols", r.N, y.production(r.N), r2[r.N], k))
+		}
+		body := fmt.Sprintf("\t\tyyDollar = yyS[yypt-%d : yypt+1]\n", k)
+		y.Actions = append(y.Actions, &yaccAction{N: r.N, K: k, Body: body, Rule: r, Default: true})
+		fmt.Fprintf(&b, "\n// %s   (no action: the driver's default $$ = $1)\nfunc yyAction%d(yylex yyLexer, yyS []yySymType, yypt int, yyVAL yySymType) yySymType {\n\tvar yyDollar []yySymType\n\t_ = yyDollar\n%s\treturn yyVAL\n}\n", y.production(r.N), r.N, body)
+	}
 	y.Overlay = b.String()
 	return y
 }
@@ -435,7 +453,24 @@ func (P *Program) bindActions() {
 					used[b.key] = true
 				}
 			}
-			if wild == nil && own == nil {
+			syms := P.Specs.Symbols[y.Pkg]
+			hasSym := false
+			if a.Rule != nil {
+				if _, ok := syms[a.Rule.Lhs]; ok {
+					hasSym = true
+				}
+				for _, r := range a.Rule.Rhs {
+					if _, ok := syms[r]; ok {
+						hasSym = true
+					}
+				}
+			}
+			if wild == nil && own == nil && !hasSym {
+				continue
+			}
+			if a.Default && own == nil && !hasSym {
+				// the default action of a production whose symbols carry no invariant: nothing to check
+				S.Funcs[y.Pkg+".action<"+y.production(a.N)+">"] = &FuncSpec{Key: y.Pkg + ".action<" + y.production(a.N) + ">", Skip: "default action ($$ = $1) of a production whose symbols carry no invariant"}
 				continue
 			}
 			nk := y.Pkg + ".action<" + y.production(a.N) + ">"
@@ -454,6 +489,21 @@ func (P *Program) bindActions() {
 						continue
 					}
 					S.parseClause(src.File, rc.line, sp, rc.word, substAction(rc.rest, a.K))
+				}
+			}
+			// symbol invariants: assumed of the right-hand side, established for the left-hand side
+			if a.Rule != nil {
+				file, line := "", 0
+				if wild != nil {
+					file, line = wild.File, wild.Line
+				}
+				for i, r := range a.Rule.Rhs {
+					if inv, ok := syms[r]; ok {
+						S.parseClause(file, line, sp, "requires", fmt.Sprintf("symbol-%s: %s", symIdent(r), substSym(inv, fmt.Sprintf("yyS[yypt-%d]", a.K-(i+1)))))
+					}
+				}
+				if inv, ok := syms[a.Rule.Lhs]; ok {
+					S.parseClause(file, line, sp, "ensures", fmt.Sprintf("symbol-%s: %s", symIdent(a.Rule.Lhs), substSym(inv, "result")))
 				}
 			}
 			if len(sp.Props) == 0 {
@@ -501,4 +551,15 @@ func substAction(text string, k int) string {
 		i := int(m[1] - '0')
 		return fmt.Sprintf("yyS[yypt-%d]", k-i)
 	})
+}
+
+func symIdent(s string) string {
+	return strings.Trim(s, "'")
+}
+
+var symVar = regexp.MustCompile(`\bv\b`)
+
+// substSym replaces the symbol variable v of an invariant by an expression.
+func substSym(inv, by string) string {
+	return symVar.ReplaceAllString(inv, by)
 }
